@@ -3,6 +3,7 @@
 package main
 
 import (
+	"syscall"
 	"context"
 	"fmt"
 	"os"
@@ -149,6 +150,12 @@ func main() {
 		par := int(hx.Int(c["parallel"]))
 		if par == 0 {
 			par = 1
+		}
+		// the error a banned syscall returns is configured per process and may be changed between runs
+		if e := hx.Int(c["ban_ret"]); e != 0 {
+			ptrace.BanRet = syscall.Errno(e)
+		} else {
+			ptrace.BanRet = syscall.EACCES
 		}
 		runs := c["runs"].([]any)
 		res := make([]map[string]any, len(runs))
